@@ -166,7 +166,7 @@ def scenario(ch, cfg):
             elif k == 1:    # f(:name,args)
                 name = ch.pick(sorted(state["fns"]), "fname")
                 ar = state["fns"][name]
-                args = [_arg_lit(ch, "arg") if name not in ("inc", "add", "tri", "useg") else str(ch.draw(100, "n")) for _ in range(ar)]
+                args = [_arg_lit(ch, "arg") if not (name in ("inc", "add", "tri", "useg") or name.startswith("rf")) else str(ch.draw(100, "n")) for _ in range(ar)]
                 if name == "sel":
                     args[0] = ch.pick(["0", "1", "[]", '""', '"a"'], "cond")
                 src = _call_src(name, args)
@@ -187,7 +187,7 @@ def scenario(ch, cfg):
                 if name not in state["proxies"]:
                     both("proxy-create", f"{q}::f(:{name})", lambda name=name: twin(name))
                     state["proxies"][name] = q
-                args = [_arg_lit(ch, "parg") if name not in ("inc", "add", "tri", "useg") else str(ch.draw(100, "pn")) for _ in range(ar)]
+                args = [_arg_lit(ch, "parg") if not (name in ("inc", "add", "tri", "useg") or name.startswith("rf")) else str(ch.draw(100, "pn")) for _ in range(ar)]
                 if name == "sel":
                     args[0] = ch.pick(["0", "1", "[]", '""', '"a"'], "pcond")
                 stats["probe_proxy_call"] += 1
